@@ -63,6 +63,7 @@ func checkC05(c *Ctx) {
 		c.traceValidate("control", c.lastFile, 3, 1200)
 	}
 	c.genSlice(5, o)
+	c.runSemFamily("FamStress", "FamStress.cfg", o, 40*time.Minute) // thousands of iterations with break / continue and per-iteration locals
 	c.cov("exhaustive", true)
 	c.cov("rule", "every control skeleton of FamControl up to the nesting depth of the cfg (if/if-else over conditions of every truthiness kind, while, the 8 for shapes, blocks, break, continue, stray signals); one TLC initial state per program, each run to its terminal state by the abstract machine and replayed; non-trivial = prints something or fails")
 	semAssumptions(c)
@@ -140,6 +141,7 @@ func checkC04(c *Ctx) {
 		c.traceValidate("calls", c.lastFile, 2, 1500)
 	}
 	c.genSlice(4, o)
+	c.runSemFamily("FamStress", "FamStress.cfg", o, 40*time.Minute) // 5200 returns, recursion 1000 deep, 2600 iterations
 	c.cov("exhaustive", true)
 	c.cov("rule", "FamCalls: return (with value / bare / absent) at every nesting of if-then, if-else, block, while and for (hit in the first or a later iteration) up to CtxDepth; recursion (factorial with per-activation locals, fibonacci, mutual even/odd, Ackermann re-entering its own call site); every interleaving of <= HistLen calls to the two sibling closures of two counter instances; callee of every kind x 0..3 arguments; positional binding over all permutations of distinct arguments; functions stored in variables, arrays, objects and returned")
 	semAssumptions(c)
